@@ -18,6 +18,7 @@ import (
 
 func main() {
 	run := ev.Start("C07")
+	defer run.Guard()
 	run.Rule("codec level: (record type, value, exclusion spec of 1-3 paths of depth <= 4 drawn from the key paths occurring in the value, with wildcards in non-final positions, plus non-occurring names) -> writers WithExcludedFields (JSON compact/pretty, ROR2) must emit exactly prune(value, spec); " +
 		"readers WithExcludedFields (JSON, ROR2, untyped) must reject the unpruned document iff it carries a value at a matching path and accept the pruned one without reporting excluded required fields; " +
 		"wire level: annotated kitchen-sink resources x {create, batch_create, update, batch_update, partial_update, batch_partial_update}: tapped client bodies, client-side failure of patches touching excluded fields, raw requests carrying excluded fields -> 400 and no invocation. distinct = distinct (type/resource, spec/method, side)")
